@@ -6,6 +6,11 @@
   outcomes of connection attempts.  Outgoing traffic is recorded structurally (kind, counter, key,
   frame) — the byte-level codecs are the subject of C02/C05; incoming bytes are processed by the
   real codec models (reassembly, `_process_packet`, `_Packet.decode`, `_get_local_key`).
+
+  A connection is split into its session-critical `Core` (connection id, protocol class, packet
+  counter, session key, number of writes) and the rest (transport state, receive buffer/queue, key
+  expiry); only six operations touch the core or the log: the three writes, accepting a handshake
+  reply, connecting and disconnecting.
 -/
 import Msmart.Model.PacketV3
 import Msmart.Model.Reassembly
@@ -45,16 +50,21 @@ inductive Ev where
   | closed (cid : Nat)
   deriving DecidableEq, Repr
 
-structure Conn where
+/-- the session-critical part of a connection's protocol object -/
+structure Core where
   cid : Nat
   v3 : Bool
-  closing : Bool := false
   packetId : Nat := 0
   localKey : Option Bytes := none
+  nWrites : Nat := 0
+  deriving DecidableEq, Repr
+
+structure Conn where
+  core : Core
+  closing : Bool := false
   keyExpiry : Option Nat := none
   buffer : Bytes := []
   queue : List Bytes := []
-  nWrites : Nat := 0
   deriving DecidableEq, Repr
 
 /-- the peer: reactions to the `idx`-th write on connection `cid` (delay in ms, event) -/
@@ -79,15 +89,21 @@ structure S where
   w : World := {}
   l : Lan := {}
 
-/-! ### the peer side of the simulation -/
+/-! ### soft operations: never touch the core, the log or the connection counter -/
+
+/-- replace the soft part of the current connection -/
+def softConn (s : S) (f : Conn → Conn) : S :=
+  match s.l.conn with
+  | some c => { s with l := { s.l with conn := some { f c with core := c.core } } }
+  | none => s
 
 /-- an event reaching the protocol object of connection `c` -/
-def applyEvent (c : Conn) (e : PeerEvent) : Conn :=
+def applyEvent (e : PeerEvent) (c : Conn) : Conn :=
   if c.closing then c else
   match e with
   | .close => { c with closing := true }
   | .data b =>
-    if c.v3 then { c with queue := c.queue ++ (parseLoop (c.buffer ++ b)).1, buffer := (parseLoop (c.buffer ++ b)).2 }
+    if c.core.v3 then { c with queue := c.queue ++ (parseLoop (c.buffer ++ b)).1, buffer := (parseLoop (c.buffer ++ b)).2 }
     else { c with queue := c.queue ++ [b] }
 
 /-- earliest pending event not later than `deadline` (first such in list order on ties) -/
@@ -104,208 +120,224 @@ def removeFirst (pending : List Timed) (e : Timed) : List Timed :=
   | [] => []
   | h :: t => if h = e then t else h :: removeFirst t e
 
-/-- deliver an event to the current connection if it is addressed to it; otherwise it is lost -/
-def deliverTo (conn : Option Conn) (e : Timed) : Option Conn :=
-  match conn with
-  | some c => if c.cid = e.cid then some (applyEvent c e.ev) else some c
-  | none => none
+/-- take one due event off the schedule and deliver it to the current connection if addressed to it -/
+def deliverDue (s : S) (e : Timed) : S :=
+  softConn { s with w := { s.w with now := max s.w.now e.t, pending := removeFirst s.w.pending e } }
+    (fun c => if c.core.cid = e.cid then applyEvent e.ev c else c)
+
+def setNow (s : S) (t : Nat) : S := { s with w := { s.w with now := max s.w.now t } }
 
 /-- let time pass until `t`, delivering everything due (fuel = number of pending events) -/
 def pumpUntil : Nat → S → Nat → S
-  | 0, s, t => { s with w := { s.w with now := max s.w.now t } }
+  | 0, s, t => setNow s t
   | fuel + 1, s, t =>
     match nextDue s.w.pending t with
-    | none => { s with w := { s.w with now := max s.w.now t } }
-    | some e =>
-      pumpUntil fuel { w := { s.w with now := max s.w.now e.t, pending := removeFirst s.w.pending e },
-                       l := { s.l with conn := deliverTo s.l.conn e } } t
+    | none => setNow s t
+    | some e => pumpUntil fuel (deliverDue s e) t
 
 def pump (s : S) (t : Nat) : S := pumpUntil s.w.pending.length s t
-
-/-! ### protocol object primitives -/
-
-def alive (c : Conn) : Bool := !c.closing
-
-def logEv (s : S) (e : Ev) : S := { s with w := { s.w with log := s.w.log ++ [(s.w.now, e)] } }
-
-/-- schedule the peer's reactions to the write just made -/
-def react (rx : Reactions) (s : S) (c : Conn) : S :=
-  { s with w := { s.w with pending := s.w.pending ++ (rx c.cid c.nWrites).map (fun r => ⟨s.w.now + r.1, c.cid, r.2⟩) } }
-
-def setConn (s : S) (c : Conn) : S := { s with l := { s.l with conn := some c } }
-
-/-- `_LanProtocolV3.write(data, HANDSHAKE_REQUEST)` -/
-def writeHandshake (rx : Reactions) (s : S) (c : Conn) (token : Bytes) : R S :=
-  if token.length ≥ 65536 then .error (.py "OverflowError") else
-  if c.closing then .error .protocol else
-  .ok (setConn (react rx (logEv s (.wrHS c.cid c.packetId token)) c)
-        { c with packetId := (c.packetId + 1) % 4096, nWrites := c.nWrites + 1 })
-
-/-- `_LanProtocolV3.write(packet)` (encrypted request); refuses without a key -/
-def writeData (rx : Reactions) (s : S) (c : Conn) (frame : Bytes) : R S :=
-  match c.localKey with
-  | none => .error .protocol
-  | some k =>
-    if c.closing then .error .protocol else
-    .ok (setConn (react rx (logEv s (.wrData c.cid c.packetId k frame)) c)
-          { c with packetId := (c.packetId + 1) % 4096, nWrites := c.nWrites + 1 })
-
-/-- `_LanProtocol.write(packet)` on a V2 connection -/
-def writeV2 (rx : Reactions) (s : S) (c : Conn) (frame : Bytes) : R S :=
-  if c.closing then .error .protocol else
-  .ok (setConn (react rx (logEv s (.wrV2 c.cid frame)) c) { c with nWrites := c.nWrites + 1 })
-
-def write (rx : Reactions) (s : S) (c : Conn) (frame : Bytes) : R S :=
-  if c.v3 then writeData rx s c frame else writeV2 rx s c frame
 
 inductive ReadRes where
   | packet (raw : Bytes)
   | timeout
   deriving DecidableEq, Repr
 
-/-- `await _read_queue(timeout)`: the head of the queue, or wait for the peer until the deadline -/
-def awaitQueue : Nat → S → Nat → ReadRes × S
-  | 0, s, deadline => (.timeout, { s with w := { s.w with now := max s.w.now deadline } })
-  | fuel + 1, s, deadline =>
-    match s.l.conn with
-    | none => (.timeout, s)
-    | some c =>
-      match c.queue with
-      | p :: q => (.packet p, setConn s { c with queue := q })
-      | [] =>
-        match nextDue s.w.pending deadline with
-        | none => (.timeout, { s with w := { s.w with now := max s.w.now deadline } })
-        | some e =>
-          awaitQueue fuel { w := { s.w with now := max s.w.now e.t, pending := removeFirst s.w.pending e },
-                            l := { s.l with conn := deliverTo s.l.conn e } } deadline
-
-/-- `_read_queue(timeout=0)`: `get_nowait` -/
-def pollQueue (s : S) : Option (Bytes × S) :=
+def queueHead (s : S) : Option Bytes :=
   match s.l.conn with
-  | some c => match c.queue with
-    | p :: q => some (p, setConn s { c with queue := q })
-    | [] => none
+  | some c => c.queue.head?
   | none => none
 
+def popQueue (s : S) : S := softConn s (fun c => { c with queue := c.queue.drop 1 })
+
+/-- `await _read_queue(timeout)`: the head of the queue, or wait for the peer until the deadline -/
+def awaitQueue : Nat → S → Nat → ReadRes × S
+  | 0, s, deadline => (.timeout, setNow s deadline)
+  | fuel + 1, s, deadline =>
+    match queueHead s with
+    | some p => (.packet p, popQueue s)
+    | none =>
+      match nextDue s.w.pending deadline with
+      | none => (.timeout, setNow s deadline)
+      | some e => awaitQueue fuel (deliverDue s e) deadline
+
+/-- schedule the peer's reactions to the `idx`-th write on `cid` -/
+def react (rx : Reactions) (s : S) (cid idx : Nat) : S :=
+  { s with w := { s.w with pending := s.w.pending ++ (rx cid idx).map (fun r => ⟨s.w.now + r.1, cid, r.2⟩) } }
+
+/-! ### the six critical operations -/
+
+def logEv (s : S) (e : Ev) : S := { s with w := { s.w with log := s.w.log ++ [(s.w.now, e)] } }
+
+def setCore (s : S) (c : Conn) (core : Core) : S := { s with l := { s.l with conn := some { c with core := core } } }
+
+def bump (core : Core) : Core := { core with packetId := (core.packetId + 1) % 4096, nWrites := core.nWrites + 1 }
+
+/-- `_LanProtocolV3.write(token, HANDSHAKE_REQUEST)` on the current connection -/
+def opWriteHS (rx : Reactions) (s : S) (token : Bytes) : R S :=
+  match s.l.conn with
+  | none => .error (.py "AssertionError")
+  | some c =>
+    if token.length ≥ 65536 then .error (.py "OverflowError") else
+    if c.closing then .error .protocol else
+    .ok (react rx (setCore (logEv s (.wrHS c.core.cid c.core.packetId token)) c (bump c.core)) c.core.cid c.core.nWrites)
+
+/-- `_LanProtocolV3.write(packet)` (encrypted request): refuses without a session key -/
+def opWriteData (rx : Reactions) (s : S) (frame : Bytes) : R S :=
+  match s.l.conn with
+  | none => .error (.py "AssertionError")
+  | some c =>
+    match c.core.localKey with
+    | none => .error .protocol
+    | some k =>
+      if c.closing then .error .protocol else
+      .ok (react rx (setCore (logEv s (.wrData c.core.cid c.core.packetId k frame)) c (bump c.core)) c.core.cid c.core.nWrites)
+
+/-- `_LanProtocol.write(packet)` on a V2 connection -/
+def opWriteV2 (rx : Reactions) (s : S) (frame : Bytes) : R S :=
+  match s.l.conn with
+  | none => .error (.py "AssertionError")
+  | some c =>
+    if c.closing then .error .protocol else
+    .ok (react rx (setCore (logEv s (.wrV2 c.core.cid frame)) c { c.core with nWrites := c.core.nWrites + 1 })
+          c.core.cid c.core.nWrites)
+
+def isV3 (s : S) : Bool := match s.l.conn with | some c => c.core.v3 | none => false
+
+def opWrite (rx : Reactions) (s : S) (frame : Bytes) : R S :=
+  if isV3 s then opWriteData rx s frame else opWriteV2 rx s frame
+
+/-- the client accepts a handshake reply: session key and its expiry are set -/
+def opAccept (s : S) (lk : Bytes) (expiry : Nat) : S :=
+  match s.l.conn with
+  | none => s
+  | some c =>
+    logEv { s with l := { s.l with conn := some { c with core := { c.core with localKey := some lk }, keyExpiry := some expiry } } }
+      (.accept c.core.cid lk)
+
+/-- `_disconnect()` -/
+def opDisconnect (s : S) : S :=
+  match s.l.conn with
+  | some c => logEv { s with l := { s.l with conn := none } } (.closed c.core.cid)
+  | none => s
+
+def newExpiry (s : S) : Option Nat :=
+  match s.l.maxLifetime with
+  | some m => if m = 0 then s.l.connExpiry else some (s.w.now + m)
+  | none => s.l.connExpiry
+
+def dropConnect (s : S) : S := { s with w := { s.w with connects := s.w.connects.drop 1 } }
+
+/-- a successful `create_connection`: a fresh protocol object with the next connection id -/
+def opConnected (s : S) : S :=
+  logEv { w := { s.w with nConn := s.w.nConn + 1 },
+          l := { s.l with conn := some { core := { cid := s.w.nConn + 1, v3 := s.l.version = 3 } },
+                          connExpiry := newExpiry s } }
+    (.connect (s.w.nConn + 1) (s.l.version = 3))
+
+/-- `_connect()` (called with no current connection): consumes one connection outcome -/
+def opConnect (p : Params) (s : S) : R Unit × S :=
+  match s.w.connects with
+  | [] => (.error .protocol, dropConnect s)
+  | .refused :: _ => (.error .protocol, dropConnect s)
+  | .hang :: _ => (.error .timeout, pump (dropConnect s) (s.w.now + p.connectTimeout))
+  | .ok :: _ => (.ok (), opConnected (dropConnect s))
+
+/-! ### protocol / LAN logic built from them -/
+
+def connAlive (s : S) : Bool :=
+  match s.l.conn with
+  | none => false
+  | some c => !c.closing && (match s.l.connExpiry with | some e => decide (s.w.now ≤ e) | none => true)
+
+def authenticated (s : S) : Bool :=
+  match s.l.conn with
+  | some c => (match c.core.localKey, c.keyExpiry with
+    | some _, some e => decide (s.w.now ≤ e)
+    | _, _ => false)
+  | none => false
+
+def curKey (s : S) : Option Bytes := match s.l.conn with | some c => c.core.localKey | none => none
+
 /-- `protocol.read()` result decoded by `LAN._read`: process (V3) then `_Packet.decode` -/
-def decodeRead (c : Conn) (raw : Bytes) : R Bytes :=
-  if c.v3 then
-    match processPacket c.localKey raw with
+def decodeRead (s : S) (raw : Bytes) : R Bytes :=
+  if isV3 s then
+    match processPacket (curKey s) raw with
     | .error e => .error e
     | .ok p => packetDecode p
   else packetDecode raw
 
-/-! ### LAN -/
+def flush (s : S) : S := softConn s (fun c => { c with queue := [] })
 
-def connAlive (p : Params) (s : S) : Bool :=
-  match s.l.conn with
-  | none => false
-  | some c => alive c && (match s.l.connExpiry with | some e => decide (s.w.now ≤ e) | none => true)
-
-def authenticated (s : S) (c : Conn) : Bool :=
-  match c.localKey, c.keyExpiry with
-  | some _, some e => decide (s.w.now ≤ e)
-  | _, _ => false
-
-/-- `_disconnect()` -/
-def disconnect (s : S) : S :=
-  match s.l.conn with
-  | some c => logEv { s with l := { s.l with conn := none } } (.closed c.cid)
-  | none => s
-
-/-- `_connect()`: consumes one connection outcome -/
-def connect (p : Params) (s : S) : R S × S :=
-  match s.w.connects with
-  | [] | .refused :: _ =>
-    (.error .protocol, { s with w := { s.w with connects := s.w.connects.drop 1 } })
-  | .hang :: rest =>
-    let s1 := pump { s with w := { s.w with connects := rest } } (s.w.now + p.connectTimeout)
-    (.error .timeout, s1)
-  | .ok :: rest =>
-    let c : Conn := { cid := s.w.nConn + 1, v3 := s.l.version = 3 }
-    let s1 : S := { w := { s.w with connects := rest, nConn := s.w.nConn + 1 },
-                    l := { s.l with conn := some c,
-                                    connExpiry := match s.l.maxLifetime with
-                                      | some m => if m = 0 then s.l.connExpiry else some (s.w.now + m)
-                                      | none => s.l.connExpiry } }
-    (.ok (logEv s1 (.connect c.cid c.v3)), logEv s1 (.connect c.cid c.v3))
+/-- what `_LanProtocolV3.authenticate` does with the handshake reply packet -/
+def acceptReply (p : Params) (s : S) (key raw : Bytes) : R Unit × S :=
+  match processPacket (curKey s) raw with
+  | .error .protocol => (.error .auth, s)
+  | .error e => (.error e, s)
+  | .ok payload =>
+    match getLocalKey key payload with
+    | .error e => (.error e, s)
+    | .ok lk => (.ok (), opAccept s lk (s.w.now + p.authExpiry))
 
 /-- `_LanProtocolV3.authenticate(token, key)`: one handshake attempt -/
-def protoAuthenticate (p : Params) (rx : Reactions) (s : S) (token key : Option Bytes) : R S × S :=
-  match s.l.conn with
-  | none => (.error (.py "AssertionError"), s)
-  | some c =>
-    match token, key with
-    | some tk, some ky =>
-      if tk.isEmpty ∨ ky.isEmpty then (.error .auth, s) else
-      -- flush
-      match writeHandshake rx s { c with queue := [] } tk with
-      | .error .protocol => (.error .auth, setConn s { c with queue := [] })
-      | .error e => (.error e, setConn s { c with queue := [] })
-      | .ok s1 =>
-        match awaitQueue (s1.w.pending.length + 1) s1 (s1.w.now + p.readTimeout) with
-        | (.timeout, s2) => (.error .timeout, s2)
-        | (.packet raw, s2) =>
-          match s2.l.conn with
-          | none => (.error (.py "AssertionError"), s2)
-          | some c2 =>
-            match processPacket c2.localKey raw with
-            | .error .protocol => (.error .auth, s2)
-            | .error e => (.error e, s2)
-            | .ok payload =>
-              match getLocalKey ky payload with
-              | .error e => (.error e, s2)
-              | .ok lk =>
-                let s3 := setConn s2 { c2 with localKey := some lk, keyExpiry := some (s2.w.now + p.authExpiry) }
-                (.ok (logEv s3 (.accept c2.cid lk)), logEv s3 (.accept c2.cid lk))
-    | _, _ => (.error .auth, s)
+def protoAuthenticate (p : Params) (rx : Reactions) (s : S) (token key : Option Bytes) : R Unit × S :=
+  match token, key with
+  | some tk, some ky =>
+    if tk.isEmpty ∨ ky.isEmpty then (.error .auth, s) else
+    match opWriteHS rx (flush s) tk with
+    | .error .protocol => (.error .auth, flush s)
+    | .error e => (.error e, flush s)
+    | .ok s1 =>
+      match awaitQueue (s1.w.pending.length + 1) s1 (s1.w.now + p.readTimeout) with
+      | (.timeout, s2) => (.error .timeout, s2)
+      | (.packet raw, s2) => acceptReply p s2 ky raw
+  | _, _ => (.error .auth, s)
 
-/-- the retry loop of `LAN.authenticate` -/
-def authLoop (p : Params) (rx : Reactions) (token key : Option Bytes) : Nat → S → R S × S
-  | 0, s => (.ok s, s)
+/-- the retry loop of `LAN.authenticate`; the final timeout drops the connection
+    (since `fix:` "drop the connection when authentication times out") -/
+def authLoop (p : Params) (rx : Reactions) (token key : Option Bytes) : Nat → S → R Unit × S
+  | 0, s => (.ok (), s)
   | n + 1, s =>
     match protoAuthenticate p rx s token key with
-    | (.ok s1, _) => (.ok s1, s1)
+    | (.ok (), s1) => (.ok (), s1)
     | (.error .timeout, s1) =>
-      if n + 1 > 1 then authLoop p rx token key n s1
-      else (.error .timeout, disconnect s1)      -- since `fix:` "drop the connection when authentication times out"
+      if n + 1 > 1 then authLoop p rx token key n s1 else (.error .timeout, opDisconnect s1)
     | (.error e, s1) => (.error e, s1)
 
+def pickCred (given other stored : Option Bytes) : Option Bytes :=
+  if given.isNone ∨ other.isNone then stored else given
+
+def setVersion3 (s : S) : S := { s with l := { s.l with version := 3 } }
+def storeCreds (s : S) (tk ky : Option Bytes) : S := { s with l := { s.l with token := tk, key := ky } }
+
+/-- after the retry loop: the protocol must be authenticated; store credentials; sleep -/
+def finishAuth (p : Params) (s : S) (tk ky : Option Bytes) : R Unit × S :=
+  if !authenticated s then (.error (.py "AssertionError"), s)
+  else (.ok (), pump (storeCreds s tk ky) (s.w.now + p.authSleep))
+
 /-- `LAN.authenticate(token, key, retries)` -/
-def lanAuthenticate (p : Params) (rx : Reactions) (s : S) (token key : Option Bytes) (retries : Nat) : R S × S :=
-  let tk := if token.isNone ∨ key.isNone then s.l.token else token
-  let ky := if token.isNone ∨ key.isNone then s.l.key else key
-  let needConn := !connAlive p s || !(match s.l.conn with | some c => c.v3 | none => false)
-  let r0 : R S × S :=
-    if needConn then connect p { (disconnect s) with l := { (disconnect s).l with version := 3 } }
-    else (.ok s, s)
-  match r0 with
-  | (.error e, s1) => (.error e, s1)
-  | (.ok _, s1) =>
-    match authLoop p rx tk ky retries s1 with
+def lanAuthenticate (p : Params) (rx : Reactions) (s : S) (token key : Option Bytes) (retries : Nat) : R Unit × S :=
+  if !connAlive s || !isV3 s then
+    match opConnect p (setVersion3 (opDisconnect s)) with
+    | (.error e, s1) => (.error e, s1)
+    | (.ok (), s1) =>
+      match authLoop p rx (pickCred token key s.l.token) (pickCred key token s.l.key) retries s1 with
+      | (.error e, s2) => (.error e, s2)
+      | (.ok (), s2) => finishAuth p s2 (pickCred token key s.l.token) (pickCred key token s.l.key)
+  else
+    match authLoop p rx (pickCred token key s.l.token) (pickCred key token s.l.key) retries s with
     | (.error e, s2) => (.error e, s2)
-    | (.ok _, s2) =>
-      match s2.l.conn with
-      | none => (.error (.py "AssertionError"), s2)
-      | some c =>
-        if !authenticated s2 c then (.error (.py "AssertionError"), s2) else
-        let s3 : S := { s2 with l := { s2.l with token := tk, key := ky } }
-        let s4 := pump s3 (s3.w.now + p.authSleep)
-        (.ok s4, s4)
+    | (.ok (), s2) => finishAuth p s2 (pickCred token key s.l.token) (pickCred key token s.l.key)
 
 /-- `_read_available()`: everything already queued, decoded; a decode error propagates -/
 def readAvailable : Nat → S → List Bytes → R (List Bytes) × S
   | 0, s, acc => (.ok acc, s)
   | fuel + 1, s, acc =>
-    match s.l.conn with
+    match queueHead s with
     | none => (.ok acc, s)
-    | some c =>
-      match pollQueue s with
-      | none => (.ok acc, s)
-      | some (raw, s1) =>
-        match decodeRead c raw with
-        | .error e => (.error e, s1)
-        | .ok f => readAvailable fuel s1 (acc ++ [f])
+    | some raw =>
+      match decodeRead s raw with
+      | .error e => (.error e, popQueue s)
+      | .ok f => readAvailable fuel (popQueue s) (acc ++ [f])
 
 def queueLen (s : S) : Nat := match s.l.conn with | some c => c.queue.length | none => 0
 
@@ -313,48 +345,46 @@ def queueLen (s : S) : Nat := match s.l.conn with | some c => c.queue.length | n
 def sendLoop (p : Params) (rx : Reactions) (frame : Bytes) : Nat → S → List Bytes → R (List Bytes) × S
   | 0, s, acc => (.ok acc, s)
   | n + 1, s, acc =>
-    match s.l.conn with
-    | none => (.error (.py "AssertionError"), s)
-    | some c =>
-      match write rx s c frame with
-      | .error e => (.error e, s)                         -- raised outside the try: no disconnect
-      | .ok s1 =>
-        match awaitQueue (s1.w.pending.length + 1) s1 (s1.w.now + p.readTimeout) with
-        | (.timeout, s2) =>
-          if n + 1 > 1 then sendLoop p rx frame n s2 acc
-          else (.error .timeout, disconnect s2)
-        | (.packet raw, s2) =>
-          match s2.l.conn with
-          | none => (.error (.py "AssertionError"), s2)
-          | some c2 =>
-            match decodeRead c2 raw with
-            | .error .protocol => (.error .protocol, disconnect s2)
-            | .error .auth => (.error .auth, disconnect s2)
-            | .error e => (.error e, s2)
-            | .ok f => (.ok (acc ++ [f]), s2)
+    match opWrite rx s frame with
+    | .error e => (.error e, s)                         -- raised outside the try: no disconnect
+    | .ok s1 =>
+      match awaitQueue (s1.w.pending.length + 1) s1 (s1.w.now + p.readTimeout) with
+      | (.timeout, s2) =>
+        if n + 1 > 1 then sendLoop p rx frame n s2 acc
+        else (.error .timeout, opDisconnect s2)
+      | (.packet raw, s2) =>
+        match decodeRead s2 raw with
+        | .error .protocol => (.error .protocol, opDisconnect s2)
+        | .error .auth => (.error .auth, opDisconnect s2)
+        | .error e => (.error e, s2)
+        | .ok f => (.ok (acc ++ [f]), s2)
+
+/-- the body of `LAN.send` once connected and authenticated -/
+def exchange (p : Params) (rx : Reactions) (s : S) (frame : Bytes) (retries : Nat) : R (List Bytes) × S :=
+  match readAvailable (queueLen s + 1) s [] with
+  | (.error e, s3) => (.error e, s3)
+  | (.ok pre, s3) =>
+    match sendLoop p rx frame retries s3 pre with
+    | (.error e, s4) => (.error e, s4)
+    | (.ok got, s4) => readAvailable (queueLen s4 + 1) s4 got
+
+/-- authenticate first when the V3 protocol is not (or no longer) authenticated -/
+def ensureAuth (p : Params) (rx : Reactions) (s : S) : R Unit × S :=
+  if isV3 s && !authenticated s then lanAuthenticate p rx s none none Generated.lanRetries else (.ok (), s)
 
 /-- `LAN.send(data, retries)` -/
 def lanSend (p : Params) (rx : Reactions) (s : S) (frame : Bytes) (retries : Nat) : R (List Bytes) × S :=
-  let r0 : R S × S := if !connAlive p s then connect p (disconnect s) else (.ok s, s)
-  match r0 with
-  | (.error e, s1) => (.error e, s1)
-  | (.ok _, s1) =>
-    let r1 : R S × S :=
-      match s1.l.conn with
-      | some c => if c.v3 && !authenticated s1 c then lanAuthenticate p rx s1 none none Generated.lanRetries else (.ok s1, s1)
-      | none => (.error (.py "AssertionError"), s1)
-    match r1 with
+  if !connAlive s then
+    match opConnect p (opDisconnect s) with
+    | (.error e, s1) => (.error e, s1)
+    | (.ok (), s1) =>
+      match ensureAuth p rx s1 with
+      | (.error e, s2) => (.error e, s2)
+      | (.ok (), s2) => exchange p rx s2 frame retries
+  else
+    match ensureAuth p rx s with
     | (.error e, s2) => (.error e, s2)
-    | (.ok _, s2) =>
-      match readAvailable (queueLen s2 + 1) s2 [] with
-      | (.error e, s3) => (.error e, s3)
-      | (.ok pre, s3) =>
-        match sendLoop p rx frame retries s3 pre with
-        | (.error e, s4) => (.error e, s4)
-        | (.ok got, s4) =>
-          match readAvailable (queueLen s4 + 1) s4 got with
-          | (.error e, s5) => (.error e, s5)
-          | (.ok all, s5) => (.ok all, s5)
+    | (.ok (), s2) => exchange p rx s2 frame retries
 
 /-! ### device level -/
 
@@ -370,7 +400,7 @@ def deviceSend (p : Params) (rx : Reactions) (s : S) (frame : Bytes) : R (List B
 /-- `Device.authenticate`: protocol errors and timeouts become AuthenticationError -/
 def deviceAuthenticate (p : Params) (rx : Reactions) (s : S) (token key : Bytes) : R Unit × S :=
   match lanAuthenticate p rx s (some token) (some key) Generated.lanRetries with
-  | (.ok _, s1) => (.ok (), s1)
+  | (.ok (), s1) => (.ok (), s1)
   | (.error .protocol, s1) => (.error .auth, s1)
   | (.error .timeout, s1) => (.error .auth, s1)
   | (.error e, s1) => (.error e, s1)
@@ -390,24 +420,25 @@ inductive Outcome where
   | failed (e : Err)
   deriving DecidableEq, Repr
 
+def outcomeOfSend : R (List Bytes) × S → Outcome × S
+  | (.ok fs, s1) => (.frames fs, s1)
+  | (.error e, s1) => (.failed e, s1)
+
+def outcomeOfAuth : R Unit × S → Outcome × S
+  | (.ok (), s1) => (.done, s1)
+  | (.error e, s1) => (.failed e, s1)
+
+def setLifetime (s : S) (m : Option Nat) : S := { s with l := { s.l with maxLifetime := m } }
+
 def step (p : Params) (rx : Reactions) (s : S) : Op → Outcome × S
-  | .send f => match lanSend p rx s f Generated.lanRetries with
-    | (.ok fs, s1) => (.frames fs, s1)
-    | (.error e, s1) => (.failed e, s1)
-  | .sendN f n => match lanSend p rx s f n with
-    | (.ok fs, s1) => (.frames fs, s1)
-    | (.error e, s1) => (.failed e, s1)
-  | .authenticate t k => match lanAuthenticate p rx s (some t) (some k) Generated.lanRetries with
-    | (.ok _, s1) => (.done, s1)
-    | (.error e, s1) => (.failed e, s1)
+  | .send f => outcomeOfSend (lanSend p rx s f Generated.lanRetries)
+  | .sendN f n => outcomeOfSend (lanSend p rx s f n)
+  | .authenticate t k => outcomeOfAuth (lanAuthenticate p rx s (some t) (some k) Generated.lanRetries)
   | .advance ms => (.done, pump s (s.w.now + ms))
-  | .setMaxLifetime m => (.done, { s with l := { s.l with maxLifetime := m } })
+  | .setMaxLifetime m => (.done, setLifetime s m)
 
 def run (p : Params) (rx : Reactions) : S → List Op → List Outcome × S
   | s, [] => ([], s)
-  | s, o :: t =>
-    let (r, s1) := step p rx s o
-    let (rs, s2) := run p rx s1 t
-    (r :: rs, s2)
+  | s, o :: t => ((step p rx s o).1 :: (run p rx (step p rx s o).2 t).1, (run p rx (step p rx s o).2 t).2)
 
 end Msmart.Model.Session
